@@ -69,9 +69,11 @@ impl Worker {
             .env("VERIF_WORKER_LOG", &log)
             .env("VERIF_WORKER_SCRATCH", &scratch)
             .env("RUST_BACKTRACE", "0")
+            .env("ASAN_SYMBOLIZER_PATH", "/usr/bin/llvm-symbolizer-14")
+            .env("VERIF_FLAVOUR", flavour.to_string())
             .env(
                 "ASAN_OPTIONS",
-                "detect_leaks=0:abort_on_error=1:allocator_may_return_null=1:max_allocation_size_mb=3072:detect_stack_use_after_return=0:symbolize=0",
+                "detect_leaks=0:abort_on_error=1:allocator_may_return_null=1:max_allocation_size_mb=3072:detect_stack_use_after_return=0:symbolize=1",
             )
             .stdin(Stdio::piped())
             .stdout(Stdio::piped())
@@ -100,7 +102,7 @@ impl Worker {
 
     fn log_tail(&self) -> String {
         let data = std::fs::read(&self.log).unwrap_or_default();
-        let start = data.len().saturating_sub(6000);
+        let start = data.len().saturating_sub(60_000);
         String::from_utf8_lossy(&data[start..]).to_string()
     }
 
@@ -163,10 +165,27 @@ impl Worker {
             Some(n) => format!("signal{n}"),
             None => format!("exit{}", status.and_then(|s| s.code()).unwrap_or(-1)),
         };
+        let mut detail_from = tail.len().saturating_sub(1500);
         if let Some(i) = tail.find("AddressSanitizer: ") {
             let rest = &tail[i + 18..];
             let kind: String = rest.chars().take_while(|c| !c.is_whitespace()).collect();
-            class = format!("asan:{kind}");
+            // first stack frame inside zipora (symbolised), digits/hashes normalised away
+            let mut frame = String::new();
+            for line in rest.lines().take(40) {
+                let l = line.trim_start();
+                if l.starts_with('#') {
+                    if let Some(p) = l.find(" in ") {
+                        let f = l[p + 4..].split_whitespace().next().unwrap_or("");
+                        if f.contains("zipora") {
+                            let f = f.split("::h").next().unwrap_or(f);
+                            frame = f.chars().filter(|c| !c.is_ascii_digit()).take(90).collect();
+                            break;
+                        }
+                    }
+                }
+            }
+            class = if frame.is_empty() { format!("asan:{kind}") } else { format!("asan:{kind}:{frame}") };
+            detail_from = tail[..i].rfind('\n').map(|x| x + 1).unwrap_or(0);
         } else if tail.contains("memory allocation of") && tail.contains("failed") {
             class = "alloc_refused".to_string();
         } else if tail.contains("stack overflow") || tail.contains("has overflowed its stack") {
@@ -174,7 +193,10 @@ impl Worker {
         } else if tail.contains("panic in a function that cannot unwind") || tail.contains("panic in a destructor") {
             class = format!("{class}:nounwind_panic");
         }
-        Exec::Crash { class, tail: super::clip(&tail[tail.len().saturating_sub(1500)..].to_string(), 1500) }
+        while !tail.is_char_boundary(detail_from) {
+            detail_from += 1;
+        }
+        Exec::Crash { class, tail: super::clip(&tail[detail_from..], 1800) }
     }
 }
 
@@ -209,6 +231,7 @@ struct Stats {
     unreproduced: u64,
     replayed_files: u64,
     enumerated: u64,
+    sub_executions: u64,
     violations: Vec<Violation>,
 }
 
@@ -318,10 +341,15 @@ impl<'a> Session<'a> {
                 cs.skipped += 1;
                 st.skipped += 1;
             }
+            st.evaluations += out.extra_evals;
+            st.sub_executions += out.extra_evals;
+            for k in &out.extra_keys {
+                st.distinct.insert(*k);
+            }
             if out.nontrivial && out.skipped.is_none() {
                 st.cells.get_mut(&cell).unwrap().nontrivial += 1;
                 let s = serde_json::to_string(case).unwrap();
-                let h = fnv(s.as_bytes());
+                let h = out.key.unwrap_or_else(|| fnv(s.as_bytes()));
                 if st.distinct.insert(h) && st.samples.len() < 4 && s.len() < 2500 {
                     st.samples.push(case.clone());
                 }
@@ -657,6 +685,7 @@ pub fn check(prop: &dyn Prop, opts: &Opts) -> i32 {
             "unreproduced": st.unreproduced,
             "replayed_files": st.replayed_files,
             "enumerated_cases": st.enumerated,
+            "sub_executions_inside_enumerating_cases": st.sub_executions,
             "exhaustive": false,
             "jobs": opts.jobs,
         },
